@@ -620,16 +620,16 @@ fn ideal_pixel(fm: &Fmt, word: &Wide, p: usize) -> Vec<Expect> {
 
 /// integer outputs of fields whose conversion the library evaluates in f32 get the tolerance
 fn class_for(fm: &Fmt, prec: u32, comp_kind: Option<Kind>, base: Class) -> Class {
+    // DESIGN.md §3: no tolerance where the input domain of the field has at most 2^16 points
+    // (half, 11-bit, 10-bit floats, the 14-bit shared-exponent channel); only 32-bit float fields get it
     if prec < 2 {
-        if fm.color == Color::Shared {
-            return Class::Tol;
-        }
         if let Some(k) = comp_kind {
-            if matches!(k, Kind::Half | Kind::F11 | Kind::F10 | Kind::F32) {
+            if matches!(k, Kind::F32) {
                 return Class::Tol;
             }
         }
     }
+    let _ = fm;
     base
 }
 
